@@ -28,7 +28,7 @@ FLAGS_A := -fsanitize=address,undefined -fno-sanitize-recover=undefined
 
 SIMFLAGS := -std=gnu++17 -O2 -g -Wall -Wextra -Wno-unused-parameter -Wno-missing-field-initializers $(LIB_INCS) -Isim
 
-SIM_SRCS_COMMON := core.cpp fiber.cpp hb.cpp alloc.cpp pthread_shim.cpp kernel.cpp knet.cpp main.cpp
+SIM_SRCS_COMMON := core.cpp fiber.cpp hb.cpp alloc.cpp pthread_shim.cpp kernel.cpp knet.cpp kextra.cpp main.cpp
 SIM_SRCS_T := $(SIM_SRCS_COMMON) tsanrt.cpp
 SIM_SRCS_A := $(SIM_SRCS_COMMON) notsan.cpp
 HARNESS_SRCS := $(notdir $(wildcard harness/*.cpp))
